@@ -168,6 +168,10 @@ var catalogue = []Mutant{
 	{ID: "alias-tail", Rules: []string{"R15.2"}, Note: "first alias not registered", Edits: []Edit{{"mime.go", "\tm.aliases = aliases\n\treturn m", "\tm.aliases = aliases[1:]\n\treturn m"}}},
 	{ID: "tar-trimleft", Rules: []string{"R18.1"}, Note: "checksum padding stripped in front only", Edits: []Edit{{"internal/magic/archive.go", "b = bytes.Trim(b, \" \\x00\")", "b = bytes.TrimLeft(b, \" \\x00\")"}}},
 	{ID: "two-limit-variables", Rules: []string{"R04.1"}, Note: "SetLimit stores into another variable", Edits: []Edit{{"mimetype.go", "atomic.StoreUint32(&readLimit, limit)", "atomic.StoreUint32(&defaultLimit, limit)"}}},
+	{ID: "ndjson-parsed-less", Rules: []string{"R13.2"}, Note: "NDJSON line accepted when parsed beyond / short of its end", Edits: []Edit{{"internal/magic/text.go", "if len(l) != parsed {", "if len(l) < parsed {"}}},
+	{ID: "valid-on-uncut", Rules: []string{"R11.5"}, Note: "validation of the uncut input", Edits: []Edit{{"internal/charset/charset.go", "if hasHighBit && utf8.Valid(content) {", "if hasHighBit && utf8.Valid(origContent) {"}}},
+	{ID: "apk-marker-short", Rules: []string{"R19.1"}, Note: "APK entry name shortened", Edits: []Edit{{"internal/magic/zip.go", "[]byte(\"classes.dex\"),", "[]byte(\"classes\"),"}}},
+	{ID: "extend-under-root", Rules: []string{"R14.1"}, Note: "Extend publishes under the root instead of its receiver", Edits: []Edit{{"mime.go", "\tm.children = append([]*MIME{c}, m.children...)\n", "\troot.children = append([]*MIME{c}, root.children...)\n"}}},
 	{ID: "setlimit-noop", Rules: []string{"R04.1"}, Note: "SetLimit stores nothing", Edits: []Edit{{"mimetype.go", "\tatomic.StoreUint32(&readLimit, limit)\n", "\t_ = limit\n"}}},
 }
 
